@@ -229,3 +229,47 @@ Proof.
   - split; [exists []; now split | reflexivity].
   - split; [exists [s2l "sub"]; now split | reflexivity].
 Qed.
+
+(** ---------------------------------------------------------------- the working directory at call time is irrelevant *)
+Theorem resolve_cwd_at_call_irrelevant g con cwd0 cwd1 root_arg path :
+  is_abs cwd0 = true -> resolve2 g con cwd0 cwd1 root_arg path = resolve g con cwd0 root_arg path.
+Proof.
+  intros Hc. unfold resolve2, resolve.
+  assert (Hj : is_abs (pjoin (abspath cwd0 root_arg) path) = true) by now apply pjoin_abs, abspath_is_abs.
+  assert (E : forall c, abspath c (pjoin (abspath cwd0 root_arg) path) = normpath (pjoin (abspath cwd0 root_arg) path)).
+  { intros c. set (q := pjoin (abspath cwd0 root_arg) path) in *. unfold abspath at 1. now rewrite Hj. }
+  now rewrite (E cwd1), (E cwd0).
+Qed.
+
+Corollary resolve2_inside g cwd0 cwd1 root_arg path a :
+  raise_sound g = true -> is_abs cwd0 = true ->
+  resolve2 g true cwd0 cwd1 root_arg path = Ok a -> inside (abspath cwd0 root_arg) a.
+Proof.
+  intros Hg Hc H. rewrite (resolve_cwd_at_call_irrelevant g true cwd0 cwd1 root_arg path Hc) in H.
+  exact (segprefix_guard_sound g cwd0 root_arg path a Hg Hc H).
+Qed.
+
+(** ---------------------------------------------------------------- what [inside] means for the directory walk *)
+(** The OS reaches the file named by an absolute path by following its segments from '/'.  For a path that is
+    [inside] the root this walk never goes up, passes through the root directory and stays in it from then on:
+    the stack of directories (innermost first) always ends with the root's stack once the root has been reached. *)
+Lemma follow_no_dotdot l : forall st, no_dotdot l -> follow st l = Some (rev l ++ st).
+Proof.
+  induction l as [|c r IH]; intros st H; [reflexivity|]. inversion H as [|? ? Hc Hr]; subst.
+  cbn [follow]. rewrite Hc, (IH (c :: st) Hr). cbn [rev]. now rewrite <- app_assoc.
+Qed.
+
+Theorem inside_walk_stays_in_root root a : inside root a ->
+  exists rest,
+    segs a = segs root ++ rest /\
+    (* the walk from '/' arrives at the root directory (k = 0) and every further step (every prefix of the
+       remaining segments) is at or below it *)
+    forall k, follow [] (segs root ++ firstn k rest) = Some (rev (firstn k rest) ++ rev (segs root)).
+Proof.
+  intros (_ & [rest Hp] & Hd). exists rest. split; [exact Hp|].
+  intros k. rewrite Hp in Hd. unfold no_dotdot in Hd. apply Forall_app in Hd as [Hr Hrest].
+  assert (Hk : no_dotdot (segs root ++ firstn k rest)).
+  { unfold no_dotdot. apply Forall_app. split; [exact Hr|].
+    rewrite <- (firstn_skipn k rest) in Hrest. now apply Forall_app in Hrest as [H _]. }
+  rewrite (follow_no_dotdot _ [] Hk), app_nil_r. now rewrite rev_app_distr.
+Qed.
